@@ -113,12 +113,21 @@ def detect(i, tier, checks):
             if meta.get("detect_subs"):      # only the named sub-commands of the tier (a thorough tier can take an hour; the mutant needs one case of it)
                 env["VERIF_ONLY_SUBS"] = meta["detect_subs"]
             t0 = time.time()
+            # own session: on a timeout only this check's process group is killed (never other runs' harness processes)
+            pr = subprocess.Popen([os.path.join(V, "check"), c, tier], stdout=subprocess.PIPE, stderr=subprocess.STDOUT, text=True, env=env, cwd=V, start_new_session=True)
             try:
-                r = subprocess.run([os.path.join(V, "check"), c, tier], stdout=subprocess.PIPE, stderr=subprocess.STDOUT, text=True, env=env, cwd=V, timeout=2400)
-            except subprocess.TimeoutExpired as e:
+                so, _ = pr.communicate(timeout=2400)
+            except subprocess.TimeoutExpired:
+                import signal
+                try:
+                    os.killpg(pr.pid, signal.SIGKILL)
+                except ProcessLookupError:
+                    pass
+                pr.communicate()
                 print(i, c, tier, "CHECK DID NOT FINISH within 2400 s")
-                subprocess.run([os.path.join(V, "tools", "cleanup.sh")])
+                out[c] = {"tier": tier, "rc": None, "signatures": ["did-not-finish-within-2400s"], "wall_s": 2400}
                 continue
+            r = subprocess.CompletedProcess(pr.args, pr.returncode, so, None)
             sigs = sorted(set(l.split("signature=")[1].split()[0] for l in r.stdout.splitlines() if "signature=" in l))
             out[c] = {"tier": tier, "rc": r.returncode, "signatures": sigs[:8], "wall_s": round(time.time() - t0, 1)}
             print(i, c, tier, "rc=%d" % r.returncode, "DETECTED" if r.returncode == 1 else ("MISSED" if r.returncode == 0 else "INCONCLUSIVE"), sigs[:4])
